@@ -216,10 +216,10 @@ def run(ctx):
     from mc.pool import pmap
 
     specs = roundtrip.all_specs()
-    k = 2 if ctx.thorough else 1
+    k = 3 if ctx.thorough else 1
     jobs = []
     for name, spec in specs.items():
-        for case in dbe.cases(spec.space, 2 if name == "json_qcschema" else k):
+        for case in dbe.cases(spec.space, max(2, k) if name == "json_qcschema" else k):
             if int(case.get("natom", 0) or 0) > 1000:
                 continue
             ndev = len(dbe.deviations(spec.space, case))
